@@ -76,11 +76,19 @@ def encryptSkBody (bits b n size kxe : Nat) (masks : List Col) (pt : Option (Col
   | none => none
   | some c0 => encSkFinish b n size kxe pt e c0
 
-/-- **`glwe_encrypt_sk`** (`pt = some m`) / **`glwe_encrypt_zero_sk`** (`pt = none`): the full
+/-- the first statement of `glwe_encrypt_sk_internal` once a plaintext is given:
+`assert_eq!(pt.base2k(), base2k)` — the plaintext limbs are added as they are, so they must be in the
+ciphertext's radix (`ptB` = the plaintext's `base2k`; irrelevant without a plaintext).  The matrix
+routines build their `tmp_pt` with `take_glwe_plaintext(res)`, i.e. in the ciphertext's radix, so the
+guard only matters for the routines that take a caller's plaintext. -/
+def ptRadixOk {α : Type} (pt : Option α) (ptB b : Nat) : Bool := pt.isNone || ptB == b
+
+/-- **`glwe_encrypt_sk`** (`pt = some m`, plaintext radix `ptB`) / **`glwe_encrypt_zero_sk`** (`pt = none`): the full
 ciphertext `body :: masks`.  The wrappers assert `res.rank() == sk.rank()`. -/
-def glweEncryptSk (bits b k n size kxe : Nat) (masks : List Col) (pt : Option Col) (sk : List Poly) (e : Poly) :
+def glweEncryptSk (bits b k n size kxe : Nat) (masks : List Col) (pt : Option Col) (ptB : Nat) (sk : List Poly) (e : Poly) :
     Option GLWE :=
   if masks.length ≠ sk.length then none
+  else if !ptRadixOk pt ptB b then none
   else
     match encryptSkBody bits b n size kxe masks (pt.map (fun p => (p, 0))) sk e with
     | none => none
@@ -166,9 +174,10 @@ def encryptSkStream (bits b n size kxe rank : Nat) (pt : Option (Col × Nat)) (s
     | some body => some (body, ms, xa1)
 
 /-- **`glwe_encrypt_sk`** from the mask stream -/
-def glweEncryptSkS (bits b k n size kxe rank : Nat) (pt : Option Col) (sk : List Poly) (xa : List Nat) (e : Poly) :
+def glweEncryptSkS (bits b k n size kxe rank : Nat) (pt : Option Col) (ptB : Nat) (sk : List Poly) (xa : List Nat) (e : Poly) :
     Option (GLWE × List Nat) :=
   if rank ≠ sk.length then none
+  else if !ptRadixOk pt ptB b then none
   else (encryptSkStream bits b n size kxe rank (pt.map (fun p => (p, 0))) sk xa e).map
     (fun r => ({ base2k := b, k := k, n := n, cols := r.1 :: r.2.1 }, r.2.2))
 
@@ -183,9 +192,10 @@ structure GLWECompressed where
 
 /-- **`glwe_compressed_encrypt_sk`**: the mask columns are written over column 0 of the one-column
 buffer and only the body survives; the seed is stored -/
-def glweEncryptCompressed (bits b k n size kxe rank : Nat) (pt : Option Col) (sk : List Poly) (seedStream : List Nat) (e : Poly) :
-    Option GLWECompressed :=
+def glweEncryptCompressed (bits b k n size kxe rank : Nat) (pt : Option Col) (ptB : Nat) (sk : List Poly) (seedStream : List Nat)
+    (e : Poly) : Option GLWECompressed :=
   if rank ≠ sk.length then none
+  else if !ptRadixOk pt ptB b then none
   else (encryptSkStream bits b n size kxe rank (pt.map (fun p => (p, 0))) sk seedStream e).map
     (fun r => { base2k := b, k := k, n := n, rank := rank, body := r.1, seedStream := seedStream })
 
@@ -201,8 +211,9 @@ def dotW (x y : List Int) : Int := w64 ((List.zipWith (· * ·) x y).foldl (· +
 
 /-- **`lwe_encrypt_sk`**: `ct` limbs have `n+1` coefficients (coefficient 0 = body); `filled` is the
 buffer after `vec_znx_fill_uniform` (its coefficient 0 is overwritten), `pt` the plaintext limbs
-(one integer each), `e` the error integer. -/
-def lweEncryptSk (b size kxe : Nat) (filled : Col) (pt : List Int) (sk : Poly) (e : Int) : Option Col :=
+(one integer each, radix `2^ptB`), `e` the error integer. -/
+def lweEncryptSk (b size kxe : Nat) (filled : Col) (pt : List Int) (ptB : Nat) (sk : Poly) (e : Int) : Option Col :=
+  if ptB ≠ b then none else                                -- assert_eq!(pt.base2k(), res.base2k())
   let minSize := min size pt.length
   let tmp : Col := (List.range size).map (fun i =>
     let l := filled.getD i []
